@@ -38,8 +38,8 @@ func restoreGlobals() {
 
 func isSyncType(t reflect.Type) bool {
 	pp := t.PkgPath()
-	if strings.HasSuffix(pp, "zzverif/vsync") && t.Name() == "Once" {
-		return false // a Once's "done" flag is data: it must be restored together with what it guards
+	if strings.HasSuffix(pp, "zzverif/vsync") && (t.Name() == "Once" || t.Name() == "Pool") {
+		return false // a Once's "done" flag and a Pool's free list are data: they are restored with the rest of the package-level state
 	}
 	return pp == "sync" || pp == "sync/atomic" || strings.HasSuffix(pp, "zzverif/vsync") || strings.HasSuffix(pp, "zzverif/vatomic")
 }
